@@ -2,7 +2,19 @@
 window (WINDOWID, hence the detected terminal id) changes between requests.  Each window is its own
 specification terminal; what the library writes while a window is current arrives at that window.
 After every upload()/upload_and_display() the CURRENT window must hold the requested image under the
-returned id ("uploaded only to another terminal sharing the session" must not count)."""
+returned id ("uploaded only to another terminal sharing the session" must not count).
+
+Variants of the same scenario:
+  * c["tmux"] = {"layers": n, "server_pid", "session", "clients": {window: {"pid", "termname"}}}: the library runs
+    inside tmux (num_tmux_layers = n); a "window" is a tmux CLIENT (its own terminal emulator).  A fake `tmux` first
+    in PATH (harness/ptyhost.py: FAKE_TMUX_ENV) expands the format variables of `display-message -p` from
+    FAKE_TMUX_* environment variables, so switching the window = another client_pid/client_termname attached to the
+    same server and session; WINDOWID (inherited from the tmux server, stale) does not change.
+  * re-upload thresholds in c["config"] (through keywords or c["config_via"] = "overrides"), including the value 0:
+    with a threshold of 0 no earlier upload can satisfy "fewer than 0 other images" / "no more than 0 bytes (the
+    image itself included)" / "no more than 0 seconds", so every upload() must transmit and needs_uploading() must
+    stay True; the retention judgement `printok` then runs with the default thresholds (Spec.printOk with
+    maxUploads = 0 is constantly false)."""
 from __future__ import annotations
 
 import os
@@ -20,25 +32,57 @@ def check_terminal_switch(ctx, c: dict, prop: str):
     clock = Clock()
     clock.install()
     U.scrub_env()
+    saved_path = os.environ.get("PATH", "")
+    tm = c.get("tmux")
+    layers = int(tm["layers"]) if tm else 0
+
+    def attach(w):
+        """make `w` the current window: another X window, or (inside tmux) another attached client"""
+        if tm:
+            cl = tm["clients"][w]
+            os.environ["FAKE_TMUX_client_pid"] = str(cl["pid"])
+            os.environ["FAKE_TMUX_client_termname"] = cl.get("termname", "xterm-kitty")
+        else:
+            os.environ["WINDOWID"] = w
+
     try:
         os.environ["WINDOWID"] = "w0"
+        cfg = dict(c.get("config", {}))
+        if tm:
+            from .ptyhost import write_fake_tmux
+            write_fake_tmux(os.path.join(td, "bin"))
+            os.environ["PATH"] = os.path.join(td, "bin") + ":" + saved_path
+            os.environ["FAKE_TMUX_pid"] = str(tm.get("server_pid", 4000))
+            os.environ["FAKE_TMUX_session_id"] = tm.get("session", "$3")
+            cfg["num_tmux_layers"] = layers
+            ctx.count("tmux-scenarios")
+        attach("w0")
         log = U.EventLog()
         cmd = U.CapStream("cmd", log, tty())
         disp = U.CapStream("disp", log, tty())
-        cfg = dict(c.get("config", {}))
-        t = tupimage.TupimageTerminal(out_command=cmd, out_display=disp, in_response=None, id_database=os.path.join(td, "s.db"),
-                                      config="DEFAULT", session_id="S", **cfg)
+        if c.get("config_via") == "overrides":
+            t = tupimage.TupimageTerminal(out_command=cmd, out_display=disp, in_response=None, id_database=os.path.join(td, "s.db"),
+                                          config="DEFAULT", session_id="S", config_overrides=cfg)
+        else:
+            t = tupimage.TupimageTerminal(out_command=cmd, out_display=disp, in_response=None, id_database=os.path.join(td, "s.db"),
+                                          config="DEFAULT", session_id="S", **cfg)
         pool = _make_pool(td, c["pool"])
-        windows = {"w0": SpecTerminal("w0")}
+        windows = {"w0": SpecTerminal("w0", layers=layers)}
         cur = "w0"
         pos = 0
         thr = (cfg.get("reupload_max_uploads_ago", 1024), cfg.get("reupload_max_bytes_ago", 20 * 1024 * 1024),
                cfg.get("reupload_max_seconds_ago", 3600) * 1_000_000)
+        zero = 0 in thr
+        if zero:
+            ctx.count("zero-threshold-scenarios")
+            thr_j = (1024, 20 * 1024 * 1024, 3600 * 1_000_000)
+        else:
+            thr_j = thr
         for step in c["steps"]:
             if step["op"] == "win":
                 cur = step["w"]
-                os.environ["WINDOWID"] = cur
-                windows.setdefault(cur, SpecTerminal(cur))
+                attach(cur)
+                windows.setdefault(cur, SpecTerminal(cur, layers=layers))
                 ctx.count("window-switches")
                 continue
             e = pool[step["img"] % len(pool)]
@@ -54,7 +98,16 @@ def check_terminal_switch(ctx, c: dict, prop: str):
             pos += len(data)
             ctx.count("uploads:transmitted" if data else "uploads:skipped")
             windows[cur].feed(data, clock.micros(), lambda *a: None)
-            r = d.ask(f"printok {thr[0]} {thr[1]} {thr[2]} {iid} {token} {rows} {cols} {clock.micros()} {windows[cur].wire_log()}")
+            if zero:
+                # judged by the statement alone: nothing recorded earlier can satisfy a threshold of 0
+                still_needed = t.needs_uploading(iid)
+                if not data or not still_needed:
+                    ctx.violation("a configured re-upload threshold of 0 is not honoured: " +
+                                  ("upload() transmitted nothing" if not data else "needs_uploading() is False right after the upload"), c,
+                                  {"step": step, "window": cur, "id": iid, "thresholds(uploads,bytes,us)": list(thr), "transmitted_bytes": len(data),
+                                   "needs_uploading": still_needed, "library_thresholds": [t._config.reupload_max_uploads_ago,
+                                   t._config.reupload_max_bytes_ago, t._config.reupload_max_seconds_ago]}, key="zero-threshold-not-honoured")
+            r = d.ask(f"printok {thr_j[0]} {thr_j[1]} {thr_j[2]} {iid} {token} {rows} {cols} {clock.micros()} {windows[cur].wire_log()}")
             if not r.startswith("1"):
                 ctx.violation("no upload although the current terminal does not hold the image (it went to another terminal of the session, "
                               "or was lost)", c, {"step": step, "window": cur, "id": iid, "terminal_holds": r.split(" ", 1)[1],
@@ -63,6 +116,9 @@ def check_terminal_switch(ctx, c: dict, prop: str):
         t.id_manager.close()
     finally:
         clock.uninstall()
+        os.environ["PATH"] = saved_path
+        for k in [k for k in os.environ if k.startswith("FAKE_TMUX_")]:
+            del os.environ[k]
         shutil.rmtree(td, ignore_errors=True)
 
 
@@ -70,12 +126,36 @@ def cases(rng, n):
     for _ in range(n):
         steps = []
         wins = ["w0", "w1", "w2"]
-        for _j in range(rng.randrange(3, 9)):
+        cur, sent, after_switch = "w0", [], False
+        for _j in range(rng.randrange(4, 11)):
             r = rng.random()
-            if r < 0.35:
-                steps.append({"op": "win", "w": rng.choice(wins)})
+            if r < 0.3 and not after_switch:
+                cur = rng.choice([w for w in wins if w != cur] if rng.random() < 0.9 else wins)
+                steps.append({"op": "win", "w": cur})
+                after_switch = True
             else:
-                steps.append({"op": rng.choice(["upload", "upload_and_display"]), "img": rng.randrange(3), "cols": rng.randrange(1, 4), "rows": 1})
-        yield {"k": "terminal-switch", "config": {"upload_method": "direct", "id_space": rng.choice(["8bit", "24bit"]),
-                                                  "id_subspace": rng.choice(["5:8", "0:256"])},
-               "pool": [["png", 8, 8, rng.randrange(1 << 30)] for _ in range(3)], "steps": steps}
+                # right after a switch, mostly ask for an image (with the geometry) that some other window already received
+                if sent and rng.random() < (0.85 if after_switch else 0.4):
+                    img, cols = rng.choice(sent)
+                else:
+                    img, cols = rng.randrange(3), rng.randrange(1, 4)
+                sent.append((img, cols))
+                steps.append({"op": rng.choice(["upload", "upload_and_display"]), "img": img, "cols": cols, "rows": 1})
+                after_switch = False
+        c = {"k": "terminal-switch", "config": {"upload_method": "direct", "id_space": rng.choice(["8bit", "24bit"]),
+                                                "id_subspace": rng.choice(["5:8", "0:256"])},
+             "pool": [["png", 8, 8, rng.randrange(1 << 30)] for _ in range(3)], "steps": steps}
+        r = rng.random()
+        if r < 0.35:
+            # inside tmux: the windows are tmux clients of one server and session (same terminal emulator, or another one)
+            c["tmux"] = {"layers": rng.choice([1, 1, 2]), "server_pid": 4000, "session": "$3",
+                         "clients": {w: {"pid": 4101 + 101 * k, "termname": rng.choice(["xterm-kitty", "xterm-kitty", "xterm-256color"]) if k else "xterm-kitty"}
+                                     for k, w in enumerate(wins)}}
+        r = rng.random()
+        if r < 0.35:
+            # non-default re-upload thresholds incl. 0 ("every request transmits"), through keywords or config_overrides
+            name, vals = rng.choice([("reupload_max_uploads_ago", [0, 0, 1, 2, 3]), ("reupload_max_bytes_ago", [0]), ("reupload_max_seconds_ago", [0])])
+            c["config"][name] = rng.choice(vals)
+            if rng.random() < 0.5:
+                c["config_via"] = "overrides"
+        yield c
